@@ -83,7 +83,13 @@ def read_meta_table(ctx):
                         val.generators[0].iter.func.attr == "split" and \
                         isinstance(val.generators[0].iter.func.value, ast.Name) and \
                         val.generators[0].iter.func.value.id == vvar:
-                    ops = ["split_ws"]
+                    sp = val.generators[0].iter
+                    sep = sp.args[0].value if sp.args and isinstance(sp.args[0], ast.Constant) else None
+                    ops = ["split_ws"] if sep == " " else (["split_any"] if not sp.args else [f"split:{sep!r}"])
+                elif isinstance(val, ast.Call) and isinstance(val.func, ast.Attribute) and val.func.attr == "split" and \
+                        isinstance(val.func.value, ast.Name) and val.func.value.id == vvar:
+                    sep = val.args[0].value if val.args and isinstance(val.args[0], ast.Constant) else None
+                    ops = ["split_any"] if not val.args else (["split_ws_nofilter"] if sep == " " else [f"split:{sep!r}"])
                 else:
                     leaf, ops = C.chain(val, lambda n: isinstance(n, ast.Name) and n.id == vvar, res)
             except C.Unknown as e:
@@ -171,6 +177,11 @@ def _compat(rops: List[str], wops: List[str], space_after: bool) -> Tuple[str, s
         return R.OK, "from_string <-> to_string (tables checked separately)"
     if rc == ["split_ws"] and wc == ["join_ws"]:
         return R.OK, "split(' ')+filter <-> ' '.join"
+    if rc == ["split_any"] and wc == ["join_ws"]:
+        return R.VIOL, ("the reader splits on ANY whitespace (split() also cuts at U+3000, U+00A0, tabs) while the writer joins "
+                        "with a single ' ': an element containing such a character comes back as two elements")
+    if rc == ["split_ws_nofilter"] and wc == ["join_ws"]:
+        return R.VIOL, "split(' ') without dropping empty strings: an empty list is written as '' and read back as ['']"
     if rc == ["split_ws"] or wc == ["join_ws"]:
         return R.VIOL, f"list field: reader {rc} vs writer {wc}"
     return R.UNDEC, f"reader {rops} vs writer {wops}"
@@ -307,6 +318,15 @@ def writer_slots(ctx, cq: str):
                 if C.self_attr(x):
                     return True
                 return isinstance(x, ast.BinOp) and isinstance(x.op, ast.Add) and C.self_attr(x.left) and C.self_attr(x.right)
+            # what the slot denotes, as arithmetic over the item's fields (int/float/round are representation changes)
+            from .. import sym as _sym
+            rf = _sym.canon(e, lambda x: C.self_attr(x), ("float", "int", "round"))
+            fields_in = {s_ for s_ in rf.symbols()}
+            declared_names = set(M.item_fields(cq)) | {"tail_offset"}
+            if fields_in and fields_in <= declared_names and not any(
+                    rf.same(_sym.parse(t)) for t in list(fields_in) + ["offset + length", "tail_offset"]):
+                slots[coord] = ("shift", _sym.text(e, lambda x: C.self_attr(x)), e)
+                continue
             try:
                 leaf, ops = C.chain(e, leafp, res)
             except C.Unknown as ex:
@@ -389,6 +409,12 @@ def _slot_compat(field: str, rops: List[str], wops: List[str]) -> Tuple[str, str
         if not rcalls or not wcalls:
             return R.VIOL, f"conversion applied on one side only (reader {rc}, writer {wc})"
         return R.VIOL, f"reader {rcalls} and writer {wcalls} are not a registered inverse pair"
+    lossy_fmt = [o for o in wc if o.startswith("fmt:") and (o[-1] in "gGeE" or (o[-1] == "f" and "." in o))]
+    if lossy_fmt and field in ("offset", "length"):
+        return R.VIOL, (f"time written with format '{lossy_fmt[0][4:]}': 'g' keeps 6 significant digits, so 1234567 ms is written "
+                        f"as 1.23457e+06 and read back 3 ms off (more than 1 ms)")
+    if lossy_fmt and rc in (["int"], ["float"]) and [o for o in wc if not o.startswith("fmt:")] in ([], ["int"], ["float"]):
+        return R.OK, f"small numeric field <-> text ('{lossy_fmt[0][4:]}' exact for |x| < 1e6)"
     if rc == ["float"] and wc in ([], ["int"], ["float"]):
         return R.OK, "float <-> text" + (" (int() truncation < 1 ms)" if wc == ["int"] else "")
     if rc == ["int"] and wc in ([], ["int"]):
@@ -416,6 +442,12 @@ def rule_r3(ctx) -> List[R.Inst]:
                 wfields.setdefault(v[1], []).append((coord, v[2]))
             elif v[0] == "tail":
                 wfields.setdefault("<tail>", []).append((coord, v[1], v[2]))
+            elif v[0] == "shift":
+                insts.append(R.viol("C01.R3", f"{name}.slot{coord}", file, wret.lineno,
+                                    f"slot {coord} does not carry a field's value but '{unparse(v[2])}' (= {v[1]}): the written time "
+                                    f"differs from the chart's — e.g. int(x + 0.5) moves a negative whole time by 1 ms, again on every "
+                                    f"write/read cycle", construct=f"{name} slot {coord}: {unparse(v[2])}"))
+                wfields.setdefault("<shifted>", []).append(coord)
             elif v[0] == "?":
                 insts.append(R.undec("C01.R3", f"{name}.slot{coord}", file, wret.lineno, v[1]))
         declared = list(M.item_fields(cq))
@@ -451,6 +483,8 @@ def rule_r3(ctx) -> List[R.Inst]:
                                     f"declared field '{f}' has neither a reader nor a writer slot",
                                     construct=f"{name}.{f} absent"))
                 continue
+            if w is None and r is not None and r[0] == "slot" and r[1] in wfields.get("<shifted>", []):
+                continue
             if r is None or w is None:
                 insts.append(R.viol("C01.R3", key, file, (dnode.lineno if w is None else wret.lineno),
                                     f"declared field '{f}' is {'read but never written' if w is None else 'written but never read'}",
@@ -477,7 +511,7 @@ def rule_r3(ctx) -> List[R.Inst]:
                                     f"reader produces '{f}' which is not a declared field of {name}",
                                     construct=f"{name}.{f} undeclared"))
         for f in wfields:
-            if f != "<tail>" and f not in declared:
+            if f not in ("<tail>", "<shifted>") and f not in declared:
                 insts.append(R.viol("C01.R3", f"{name}.{f}", file, wret.lineno,
                                     f"writer emits '{f}' which is not a declared field of {name}",
                                     construct=f"{name}.{f} undeclared"))
